@@ -49,6 +49,10 @@ func (core *JApiCore) processDirective(d *directive.Directive) *jerr.JApiError {
 }
 
 func (core *JApiCore) processPasteDirective(paste *directive.Directive) *jerr.JApiError {
+	if _, ok := core.bannedDirectives[paste.Type()]; ok {
+		return paste.KeywordError(fmt.Sprintf("%s (%s)", jerr.DirectiveNotAllowed, paste.Type().String()))
+	}
+
 	if paste.Annotation != "" {
 		return paste.KeywordError(jerr.AnnotationIsForbiddenForTheDirective)
 	}
